@@ -20,6 +20,7 @@
 import QV.Proofs.WriterSession
 import QV.Proofs.WriterBridge
 import QV.Proofs.WriterRefine
+import QV.Proofs.WriterHeader
 
 namespace QV.C12
 open QV QV.Writer QV.ServerSafety
@@ -45,9 +46,9 @@ open QV QV.Writer QV.ServerSafety
   succeeded). Not proved: (d) for `Standard` / `CasePreserving` mode, where names may be
   compressed — the byte-level facts it needs are proved (`QV.Writer.NameSpec`: every written name
   is stored, and denotes the name given, exactly where the model says; C13: every pointer is
-  valid), but the round trip of *compressed* names through `specDecodeMsg` and the reading of the
-  header flag bits are only checked by the oracle (model column of `waudit`, 100 % of generated
-  sessions). -/
+  valid), but the round trip of *compressed* names through `specDecodeMsg` is only checked by the
+  oracle (model column of `waudit`, 100 % of generated sessions). The header half of (d) is
+  proved for every mode (`C12_header_all_sequences`). -/
 
 def C12_full : Prop :=
   ∀ (buf : Bytes) (limit : Nat) (mode : CMode) (s : State) (ops : List Op) (mac : Option (List UInt8)),
@@ -184,6 +185,22 @@ theorem C12_disabled_refinement (macFn : Tsig → List UInt8 → List UInt8) (hm
           tsigRecs (run ss ops).1.w.tsig mac).map specR⟩ :=
   disabled_refines macFn hmac ss b ops hI hlay hb hk ht hr
 
+/-- **the header, for all sequences of calls in every compression mode**: the header the decoder
+    reads off the buffer is the all-zero header of `Writer::new` updated by the header setters that
+    succeeded, in order — each sets exactly its field (`set_extended_rcode` the low four bits of
+    the RCODE); no other call and no failed call touches it -/
+theorem C12_header_all_sequences (buf : Bytes) (limit : Nat) (s0 : State)
+    (hnew : Writer.new buf limit = .ok s0) (mode : CMode) (ops : List Op) (ht : ∀ op ∈ ops, op.Typed)
+    (hr : Respects { w := { s0 with mode := mode } } ops) :
+    specHeader (run { w := { s0 with mode := mode } } ops).1.w.octets =
+      hdrRun ⟨0, false, 0, false, false, false, false, 0, 0⟩ ops
+        (run { w := { s0 with mode := mode } } ops).2 := by
+  have hI : I { s0 with mode := mode } := (safe_setMode mode s0 (new_i buf limit s0 hnew)).2
+  have := hdr_run { w := { s0 with mode := mode } } ops hI.inv ht (run_I _ ops hI hr).1
+  rw [this]
+  show hdrRun (specHeader s0.octets) _ _ = _
+  rw [hdr_new buf limit s0 hnew]
+
 /-- the same from a fresh writer (`Writer::new`, then `set_compression_mode(Disabled)`) -/
 theorem C12_disabled_refinement_fresh (macFn : Tsig → List UInt8 → List UInt8) (hmac : MacLenOK macFn)
     (buf : Bytes) (limit : Nat) (s0 : State) (hnew : Writer.new buf limit = .ok s0) (ops : List Op)
@@ -192,9 +209,12 @@ theorem C12_disabled_refinement_fresh (macFn : Tsig → List UInt8 → List UInt
     let fin := run { w := { s0 with mode := .disabled } } ops
     let B := bodyRun {} ops fin.2
     ∃ m mac d, finish fin.1.w macFn = .ok (m, mac) ∧ Spec.Message.specDecodeMsg m = some d ∧
-      d.msg = ⟨specHeader fin.1.w.octets, B.qs.map specQ, B.an.map specR, B.ns.map specR,
+      d.msg = ⟨hdrRun ⟨0, false, 0, false, false, false, false, 0, 0⟩ ops fin.2,
+        B.qs.map specQ, B.an.map specR, B.ns.map specR,
         (B.ar ++ optRecs fin.1.w.edns ++ tsigRecs fin.1.w.tsig mac).map specR⟩ := by
   have hI : I { s0 with mode := .disabled } := (safe_setMode .disabled s0 (new_i buf limit s0 hnew)).2
+  intro fin B
+  rw [← C12_header_all_sequences buf limit s0 hnew .disabled ops ht hr]
   exact disabled_refines macFn hmac { w := { s0 with mode := .disabled } } {} ops hI
     (lay_new buf limit s0 hnew) ⟨(fun _ h => by cases h), (fun _ h => by cases h), (fun _ h => by cases h),
       (fun _ h => by cases h)⟩ hk ht hr
